@@ -14,8 +14,29 @@
  * observed by ASan on the exact-size block.  The only member the harness names
  * is `data` (it has to, to relocate the storage).
  *
- * Roots: init followed by override(off), and init followed by override(on), so
- * that the model's flag is known without assuming what init chooses.
+ * Roots: init alone (the mode init chooses is not assumed: it is *probed* on a
+ * fresh zeroed object -- fill, one more put, get -- and the model starts with
+ * what the probe saw), init followed by override(off), init followed by
+ * override(on), and (capacities <= 3) init of an object that held 0xff octets.
+ *
+ * Object re-use: from every state of the home capacity the used object is
+ * initialised again (NAME##_init on a fresh storage block) with capacity
+ * cap-1, cap, cap+1, 1 and the largest capacity of the tier.  The model of the
+ * result is the model of a freshly initialised ring (empty, probed mode): a
+ * re-initialised ring has to behave like a fresh one.  If the resulting
+ * implementation state is identical to the fresh root of that capacity it is
+ * not explored again (that root's own search does it); otherwise the search
+ * continues from it to the fixpoint.
+ *
+ * Iterator objects are re-used, too: every iteration is started on an rb_iter
+ * with each of these histories: zeroed, 0xff-filled, constructed for /
+ * advanced over rings of other capacities, and used up on this ring in the
+ * other direction.
+ *
+ * Large scope: capacities straddling 2^8 and 2^16 (thorough also 2^15, 2^17)
+ * are not searched but driven through a structured family of histories
+ * (rotate the cursors, fill to each boundary, overfill, iterate, drain,
+ * wrap, iterate, drain to empty) with position-dependent element values.
  */
 #include "mc.h"
 
@@ -36,6 +57,7 @@ RING_BUFFER_ITER(ring32, uint32_t)
 #define MAXCAP 10
 
 enum { OP_PUT_A, OP_PUT_B, OP_GET, OP_CLEAR, OP_OVR_ON, OP_OVR_OFF, NOPS };
+#define OP_REINIT 100 /* + target capacity */
 static const char *OPN[NOPS] = { "put(A)", "put(B)", "get", "clear", "override(on)", "override(off)" };
 
 #define IMPLMAX 96 /* octets of the largest ring object this harness can key on */
@@ -48,8 +70,6 @@ struct key {
     uint32_t q[MAXCAP]; /* model: oldest first */
 };
 
-static bool saw_evict, saw_drop;
-
 static const char *
 hexof(char *buf, size_t bn, const uint8_t *p, size_t n)
 {
@@ -60,7 +80,7 @@ hexof(char *buf, size_t bn, const uint8_t *p, size_t n)
     return buf;
 }
 
-/* id of the root a state descends from (0: override off, 1: override on) */
+/* id of the root a state descends from */
 static int64_t
 root_of(const struct mc_set *s, int64_t id)
 {
@@ -69,47 +89,124 @@ root_of(const struct mc_set *s, int64_t id)
     return id;
 }
 
-#define EXPLORER(NAME, TYPE, VA, VB)                                                          \
-    static void check_observers_##NAME(const NAME *c, const struct key *m, size_t cap)        \
+static const char *ROOTN[4] = { "init", "init+override(off)", "init+override(on)", "init(ff-object)" };
+
+/* ---- iterator objects with a history --------------------------------------
+ * rb_iter is shared by all ring types; the "other rings" are octet rings. */
+static octet_ring auxa, auxb;
+static uint8_t auxa_mem[MAXCAP + 4], auxb_mem[MAXCAP + 4];
+
+static void
+aux_rings(size_t capa, size_t capb)
+{
+    memset(&auxa, 0, sizeof auxa);
+    memset(&auxb, 0, sizeof auxb);
+    octet_ring_init(&auxa, auxa_mem, capa);
+    octet_ring_init(&auxb, auxb_mem, capb);
+    for (size_t i = 0; i < capa; ++i)
+        octet_ring_put(&auxa, (uint8_t)(0x61 + i));
+    for (size_t i = 0; i < capb; ++i)
+        octet_ring_put(&auxb, (uint8_t)(0x41 + i));
+}
+
+enum { IT_ZERO, IT_FF, IT_AUXA_NEW, IT_AUXA_DONE, IT_AUXB_ADV, IT_AUXB_DONE, IT_SAME_OTHER_DIR, NITPRIOR };
+static const char *ITN[NITPRIOR] = { "zeroed", "ff-filled", "constructed-on-ring-a", "used-up-on-ring-a(new-to-old)",
+                                     "advanced-once-on-ring-b", "used-up-on-ring-b(new-to-old)",
+                                     "used-up-on-this-ring-other-direction" };
+
+/* everything but IT_SAME_OTHER_DIR (that one needs the typed constructor) */
+static void
+iter_history(rb_iter *it, int pk)
+{
+    size_t guard = 0;
+    switch (pk) {
+    case IT_ZERO: memset(it, 0, sizeof *it); break;
+    case IT_FF: memset(it, 0xff, sizeof *it); break;
+    case IT_AUXA_NEW:
+        memset(it, 0, sizeof *it);
+        octet_ring_iter(it, &auxa, RING_BUFFER_ITER_OLD_TO_NEW);
+        break;
+    case IT_AUXA_DONE:
+        memset(it, 0, sizeof *it);
+        for (octet_ring_iter(it, &auxa, RING_BUFFER_ITER_NEW_TO_OLD); !rb_iter_done(it) && guard < 64; ++guard)
+            rb_iter_advance(it);
+        break;
+    case IT_AUXB_ADV:
+        memset(it, 0, sizeof *it);
+        octet_ring_iter(it, &auxb, RING_BUFFER_ITER_OLD_TO_NEW);
+        if (!rb_iter_done(it))
+            rb_iter_advance(it);
+        break;
+    case IT_AUXB_DONE:
+        memset(it, 0, sizeof *it);
+        for (octet_ring_iter(it, &auxb, RING_BUFFER_ITER_NEW_TO_OLD); !rb_iter_done(it) && guard < 64; ++guard)
+            rb_iter_advance(it);
+        break;
+    default: break;
+    }
+}
+
+static bool saw_evict, saw_drop;
+
+#define EXPLORER(NAME, TYPE, VA, VB, BIGVAL)                                                  \
+    /* observers and both iterators against the queue q[0..qlen) (oldest first);          */  \
+    /* itmask: which iterator-object histories to use                                     */  \
+    static void check_observers_##NAME(const NAME *c, const uint32_t *q, size_t qlen, size_t cap, unsigned itmask) \
     {                                                                                         \
         size_t sz = NAME##_size(c);                                                           \
         bool em = NAME##_empty(c), fu = NAME##_full(c);                                       \
         mc_log("size=%zu empty=%d full=%d", sz, em, fu);                                      \
-        if (sz != m->qlen)                                                                    \
-            mc_fail("C19/size", "size()=%zu, queue holds %u", sz, m->qlen);                   \
-        if (em != (m->qlen == 0))                                                             \
-            mc_fail("C19/empty", "empty()=%d, queue holds %u", em, m->qlen);                  \
-        if (fu != (m->qlen == cap))                                                           \
-            mc_fail("C19/full", "full()=%d, queue holds %u of %zu", fu, m->qlen, cap);        \
-        for (int dir = 0; dir < 2; ++dir) {                                                   \
-            rb_iter it;                                                                       \
-            NAME##_iter(&it, c, dir ? RING_BUFFER_ITER_NEW_TO_OLD : RING_BUFFER_ITER_OLD_TO_NEW); \
-            size_t steps = 0;                                                                 \
-            const char *cl = dir ? "C19/iter-new-to-old" : "C19/iter-old-to-new";             \
-            for (; !rb_iter_done(&it); rb_iter_advance(&it), ++steps) {                       \
-                if (steps > 2 * cap + 2) {                                                    \
-                    mc_fail(cl, "iterator not done after %zu steps", steps);                  \
-                    break;                                                                    \
+        if (sz != qlen)                                                                       \
+            mc_fail("C19/size", "size()=%zu, queue holds %zu", sz, qlen);                     \
+        if (em != (qlen == 0))                                                                \
+            mc_fail("C19/empty", "empty()=%d, queue holds %zu", em, qlen);                    \
+        if (fu != (qlen == cap))                                                              \
+            mc_fail("C19/full", "full()=%d, queue holds %zu of %zu", fu, qlen, cap);          \
+        for (int pk = 0; pk < NITPRIOR; ++pk) {                                               \
+            if (!(itmask & (1u << pk)))                                                       \
+                continue;                                                                     \
+            for (int dir = 0; dir < 2; ++dir) {                                               \
+                rb_iter it;                                                                   \
+                if (pk == IT_SAME_OTHER_DIR) {                                                \
+                    size_t guard = 0;                                                         \
+                    memset(&it, 0, sizeof it);                                                \
+                    for (NAME##_iter(&it, c, dir ? RING_BUFFER_ITER_OLD_TO_NEW : RING_BUFFER_ITER_NEW_TO_OLD); \
+                         !rb_iter_done(&it) && guard < 2 * cap + 2; ++guard)                  \
+                        rb_iter_advance(&it);                                                 \
+                } else {                                                                      \
+                    iter_history(&it, pk);                                                    \
                 }                                                                             \
-                TYPE v = NAME##_inspect(c, &it);                                              \
-                mc_log("iter dir=%d step=%zu index=%zu value=%lx", dir, steps, it.index, (unsigned long)v); \
-                if (steps >= m->qlen) {                                                       \
-                    mc_fail(cl, "iterator yields more than the %u queued elements", m->qlen); \
-                    break;                                                                    \
+                NAME##_iter(&it, c, dir ? RING_BUFFER_ITER_NEW_TO_OLD : RING_BUFFER_ITER_OLD_TO_NEW); \
+                size_t steps = 0;                                                             \
+                const char *cl = dir ? "C19/iter-new-to-old" : "C19/iter-old-to-new";         \
+                for (; !rb_iter_done(&it); rb_iter_advance(&it), ++steps) {                   \
+                    if (steps > 2 * cap + 2) {                                                \
+                        mc_fail(cl, "iterator object %s: not done after %zu steps", ITN[pk], steps); \
+                        break;                                                                \
+                    }                                                                         \
+                    TYPE v = NAME##_inspect(c, &it);                                          \
+                    if (steps < 24)                                                           \
+                        mc_log("iter object=%s dir=%d step=%zu value=%lx", ITN[pk], dir, steps, (unsigned long)v); \
+                    if (steps >= qlen) {                                                      \
+                        mc_fail(cl, "iterator object %s: yields more than the %zu queued elements", ITN[pk], qlen); \
+                        break;                                                                \
+                    }                                                                         \
+                    uint32_t want = dir ? q[qlen - 1 - steps] : q[steps];                     \
+                    if ((uint32_t)v != want) {                                                \
+                        mc_fail(cl, "iterator object %s: step %zu yields %lx, queue has %lx", ITN[pk], steps, \
+                                (unsigned long)v, (unsigned long)want);                       \
+                        break;                                                                \
+                    }                                                                         \
                 }                                                                             \
-                uint32_t want = dir ? m->q[m->qlen - 1 - steps] : m->q[steps];                \
-                if ((uint32_t)v != want) {                                                    \
-                    mc_fail(cl, "step %zu yields %lx, queue has %lx", steps, (unsigned long)v, (unsigned long)want); \
-                    break;                                                                    \
-                }                                                                             \
+                if (steps < qlen)                                                             \
+                    mc_fail(cl, "iterator object %s: finished after %zu steps, queue holds %zu", ITN[pk], steps, qlen); \
             }                                                                                 \
-            if (steps < m->qlen)                                                              \
-                mc_fail(cl, "iterator finished after %zu steps, queue holds %u", steps, m->qlen); \
         }                                                                                     \
     }                                                                                         \
     /* implementation part of a key: object image with the storage pointer blanked, cells */  \
     static void snapshot_##NAME(struct key *k, const NAME *c, const TYPE *mem, size_t cap)    \
     {                                                                                         \
+        k->cap = (uint8_t)cap;                                                                \
         memset(k->impl, 0, sizeof k->impl);                                                   \
         memcpy(k->impl, c, sizeof *c);                                                        \
         memset(k->impl + offsetof(NAME, data), 0, sizeof c->data);                            \
@@ -123,69 +220,144 @@ root_of(const struct mc_set *s, int64_t id)
         memcpy(c, k->impl, sizeof *c);                                                        \
         c->data = mem;                                                                        \
     }                                                                                         \
-    static void explore_##NAME(size_t cap)                                                    \
+    /* The mode a freshly initialised ring is in, observed: fill, put one more, get. */       \
+    static int probe_##NAME(size_t cap)                                                       \
+    {                                                                                         \
+        int mode = 0;                                                                         \
+        mc_case(#NAME " cap=%zu probe of the mode after init: init, %zu puts, one more put, get", cap, cap); \
+        mc_trans((int64_t)cap + 3);                                                           \
+        TYPE *mem = mc_exact(cap * sizeof(TYPE));                                             \
+        memset(mem, 0xee, cap * sizeof(TYPE));                                                \
+        NAME c;                                                                               \
+        memset(&c, 0, sizeof c);                                                              \
+        NAME##_init(&c, mem, cap);                                                            \
+        for (size_t i = 0; i < cap; ++i)                                                      \
+            NAME##_put(&c, (TYPE)(0x21 + i));                                                 \
+        NAME##_put(&c, (TYPE)0x7e);                                                           \
+        TYPE v = NAME##_get(&c);                                                              \
+        mc_log("get -> %lx", (unsigned long)v);                                               \
+        if (v == (TYPE)0x21)                                                                  \
+            mode = 0; /* the extra element was dropped */                                     \
+        else if (v == (TYPE)(cap == 1 ? 0x7e : 0x22))                                         \
+            mode = 1; /* the oldest element was evicted */                                    \
+        else                                                                                  \
+            mc_fail("C19/put-full", "after %zu puts and one more, get returned %lx: neither dropped nor evicted", \
+                    cap, (unsigned long)v);                                                   \
+        free(mem);                                                                            \
+        mc_end(true, mode ? "init-mode-override" : "init-mode-drop");                         \
+        return mode;                                                                          \
+    }                                                                                         \
+    static void explore_##NAME(size_t cap, size_t maxcap)                                     \
     {                                                                                         \
         if (sizeof(NAME) > IMPLMAX)                                                           \
             mc_broken(#NAME " object of %zu octets does not fit the key (IMPLMAX)", sizeof(NAME)); \
         struct mc_set set;                                                                    \
         mc_set_init(&set);                                                                    \
-        for (int root = 0; root < 2; ++root) {                                                \
+        aux_rings(cap >= 2 ? cap - 1 : 3, cap + 1);                                           \
+        /* re-initialisation targets */                                                       \
+        size_t rcap[5];                                                                       \
+        int nr = 0;                                                                           \
+        {                                                                                     \
+            const size_t cand[5] = { cap - 1, cap, cap + 1, 1, maxcap };                      \
+            for (int i = 0; i < 5; ++i) {                                                     \
+                bool dup = cand[i] < 1 || cand[i] > maxcap;                                   \
+                for (int j = 0; j < nr; ++j)                                                  \
+                    dup |= rcap[j] == cand[i];                                                \
+                if (!dup)                                                                     \
+                    rcap[nr++] = cand[i];                                                     \
+            }                                                                                 \
+        }                                                                                     \
+        int initmode[MAXCAP + 1];                                                             \
+        struct key fresh[MAXCAP + 1];                                                         \
+        memset(fresh, 0, sizeof fresh);                                                       \
+        for (int i = 0; i < nr; ++i) {                                                        \
+            const size_t B = rcap[i];                                                         \
+            initmode[B] = probe_##NAME(B);                                                    \
+            TYPE *mem = mc_exact(B * sizeof(TYPE));                                           \
+            memset(mem, 0xee, B * sizeof(TYPE));                                              \
+            NAME c;                                                                           \
+            memset(&c, 0, sizeof c);                                                          \
+            NAME##_init(&c, mem, B);                                                          \
+            fresh[B].movr = (uint8_t)initmode[B];                                             \
+            snapshot_##NAME(&fresh[B], &c, mem, B);                                           \
+            free(mem);                                                                        \
+        }                                                                                     \
+        int rootlabel[4] = { 0, 0, 0, 0 };                                                    \
+        for (int root = 0; root < 4; ++root) {                                                \
+            if (root == 3 && cap > 3)                                                         \
+                continue;                                                                     \
             struct key k0;                                                                    \
             memset(&k0, 0, sizeof k0);                                                        \
-            k0.cap = (uint8_t)cap;                                                            \
             TYPE *mem = mc_exact(cap * sizeof(TYPE));                                         \
             memset(mem, 0xee, cap * sizeof(TYPE));                                            \
             NAME c;                                                                           \
-            memset(&c, 0, sizeof c);                                                          \
-            NAME##_init(&c, mem, cap);                                                        \
-            if (root == 0) {                                                                  \
-                mc_case(#NAME " cap=%zu initial state", cap);                                 \
-                check_observers_##NAME(&c, &k0, cap);                                         \
-                mc_end(true, "initial");                                                      \
-            }                                                                                 \
-            mc_case(#NAME " cap=%zu init then override(%s)", cap, root ? "on" : "off");       \
+            memset(&c, root == 3 ? 0xff : 0, sizeof c);                                       \
+            mc_case(#NAME " cap=%zu root %s", cap, ROOTN[root]);                              \
             mc_trans(1);                                                                      \
-            NAME##_override_if_full(&c, root == 1);                                           \
-            k0.movr = (uint8_t)root;                                                          \
+            NAME##_init(&c, mem, cap);                                                        \
+            k0.movr = (uint8_t)initmode[cap];                                                 \
+            if (root == 1 || root == 2) {                                                     \
+                NAME##_override_if_full(&c, root == 2);                                       \
+                k0.movr = (uint8_t)(root == 2);                                               \
+            }                                                                                 \
             if (c.data != mem)                                                                \
                 mc_fail("C19/geometry-unchanged", "storage pointer changed");                 \
             else                                                                              \
-                check_observers_##NAME(&c, &k0, cap);                                         \
+                check_observers_##NAME(&c, k0.q, 0, cap, ~0u);                                \
             snapshot_##NAME(&k0, &c, mem, cap);                                               \
-            /* both roots are always enqueued (ids 0 and 1; the keys differ at least          \
-             * in the model's flag) */                                                        \
-            mc_set_add(&set, &k0, sizeof k0, -1, -1, NULL);                                   \
+            int64_t id = -1;                                                                  \
+            if (!mc.cur_failed && mc_set_add(&set, &k0, sizeof k0, -1, -1, &id) && id < 4)    \
+                rootlabel[id] = root;                                                         \
             free(mem);                                                                        \
-            mc_end(true, "override");                                                         \
+            mc_end(true, root == 0 ? "initial" : root == 3 ? "initial-dirty-object" : "override"); \
         }                                                                                     \
         for (int64_t cur = 0; cur < (int64_t)set.n; ++cur) {                                  \
             struct key k;                                                                     \
             memcpy(&k, mc_set_key(&set, cur), sizeof k);                                      \
+            const size_t kcap = k.cap;                                                        \
             char path[200] = "";                                                              \
             char hx[2 * IMPLMAX + 1] = "";                                                    \
             const int64_t rootid = root_of(&set, cur);                                        \
-            for (int op = 0; op < NOPS; ++op) {                                               \
+            /* re-initialisation only from states of the home capacity; the lineage           \
+             * of the 0xff object (its padding octets differ from a fresh object's, so            \
+             * nothing it reaches is "as fresh") stays within capacities <= 3 */              \
+            size_t tcap[5];                                                                   \
+            int nt = 0;                                                                       \
+            for (int i = 0; i < nr && kcap == cap; ++i)                                       \
+                if (!(rootid >= 0 && rootid < 4 && rootlabel[rootid] == 3 && rcap[i] > 3))    \
+                    tcap[nt++] = rcap[i];                                                     \
+            const int nops = NOPS + nt;                                                       \
+            for (int opi = 0; opi < nops; ++opi) {                                            \
+                const int op = opi < NOPS ? opi : OP_REINIT + (int)tcap[opi - NOPS];          \
+                char opn[32];                                                                 \
+                if (opi < NOPS)                                                               \
+                    snprintf(opn, sizeof opn, "%s", OPN[opi]);                                \
+                else                                                                          \
+                    snprintf(opn, sizeof opn, "init(fresh storage,%zu)", tcap[opi - NOPS]);   \
                 if (mc_would_run() && path[0] == 0)                                           \
                     mc_set_path(&set, cur, path, sizeof path);                                \
                 if (mc_would_run())                                                           \
                     hexof(hx, sizeof hx, k.impl, sizeof(NAME));                               \
-                mc_case(#NAME " cap=%zu root=init+override(%s) path=[%s] state=(object=%s,qlen=%u,override=%u) op=%d:%s", \
-                        cap, rootid ? "on" : "off", path, hx, k.qlen, k.movr, op, OPN[op]);   \
+                mc_case(#NAME " cap=%zu root=%s path=[%s] state=(cap=%zu,object=%s,qlen=%u,override=%u) op=%d:%s", \
+                        cap, ROOTN[rootid >= 0 && rootid < 4 ? rootlabel[rootid] : 0], path, kcap, hx, k.qlen, \
+                        k.movr, op, opn);                                                     \
                 mc_trans(1);                                                                  \
-                TYPE *mem = mc_exact(cap * sizeof(TYPE));                                     \
+                TYPE *mem = mc_exact(kcap * sizeof(TYPE));                                    \
                 NAME c;                                                                       \
-                restore_##NAME(&c, mem, &k, cap);                                             \
+                restore_##NAME(&c, mem, &k, kcap);                                            \
                 struct key m = k; /* model part advanced below */                             \
+                size_t ncap = kcap;                                                           \
+                TYPE *nmem = mem;                                                             \
                 const char *outcome = "?";                                                    \
-                switch (op) {                                                                 \
+                switch (opi < NOPS ? opi : NOPS) {                                            \
                 case OP_PUT_A:                                                                \
                 case OP_PUT_B: {                                                              \
                     const TYPE v = (op == OP_PUT_A) ? (TYPE)(VA) : (TYPE)(VB);                \
                     NAME##_put(&c, v);                                                        \
-                    if (m.qlen == cap) {                                                      \
+                    if (m.qlen == kcap) {                                                     \
                         if (m.movr) {                                                         \
-                            memmove(m.q, m.q + 1, (cap - 1) * sizeof m.q[0]);                 \
-                            m.q[cap - 1] = v;                                                 \
+                            memmove(m.q, m.q + 1, (kcap - 1) * sizeof m.q[0]);                \
+                            m.q[kcap - 1] = v;                                                \
                             outcome = "put-evicts";                                           \
                             saw_evict = true;                                                 \
                         } else {                                                              \
@@ -226,35 +398,208 @@ root_of(const struct mc_set *s, int64_t id)
                     m.movr = (op == OP_OVR_ON);                                               \
                     outcome = "override";                                                     \
                     break;                                                                    \
+                default: /* the used object is initialised again, on fresh storage */         \
+                    ncap = tcap[opi - NOPS];                                                  \
+                    nmem = mc_exact(ncap * sizeof(TYPE));                                     \
+                    memset(nmem, 0xee, ncap * sizeof(TYPE));                                  \
+                    NAME##_init(&c, nmem, ncap);                                              \
+                    m.qlen = 0;                                                               \
+                    m.movr = (uint8_t)initmode[ncap]; /* as a fresh ring of that capacity */  \
+                    outcome = "reinit";                                                       \
+                    break;                                                                    \
                 }                                                                             \
                 for (size_t i = m.qlen; i < MAXCAP; ++i)                                      \
                     m.q[i] = 0; /* canonical model: no stale tail */                          \
                 bool sane = true;                                                             \
-                if (c.data != mem) {                                                          \
+                if (c.data != nmem) {                                                         \
                     mc_fail("C19/geometry-unchanged", "storage pointer changed");             \
                     sane = false;                                                             \
                 }                                                                             \
                 if (sane) {                                                                   \
-                    snapshot_##NAME(&m, &c, mem, cap);                                        \
+                    snapshot_##NAME(&m, &c, nmem, ncap);                                      \
                     if (mc.active) {                                                          \
                         char hx2[2 * IMPLMAX + 1];                                            \
-                        mc_log("after: object=%s", hexof(hx2, sizeof hx2, m.impl, sizeof(NAME))); \
+                        mc_log("after: cap=%zu object=%s", ncap, hexof(hx2, sizeof hx2, m.impl, sizeof(NAME))); \
                     }                                                                         \
-                    check_observers_##NAME(&c, &m, cap);                                      \
+                    check_observers_##NAME(&c, m.q, m.qlen, ncap, ~0u);                       \
                 }                                                                             \
-                if (sane && !mc.cur_failed)                                                   \
+                if (opi >= NOPS && sane && ncap != cap                                        \
+                    && memcmp(&m, &fresh[ncap], sizeof m) == 0) {                             \
+                    /* identical to the fresh root of capacity ncap: its future is            \
+                     * explored by that capacity's own search */                              \
+                    outcome = "reinit-as-fresh";                                              \
+                } else if (sane && !mc.cur_failed) {                                          \
                     mc_set_add(&set, &m, sizeof m, cur, op, NULL);                            \
+                }                                                                             \
+                if (nmem != mem)                                                              \
+                    free(nmem);                                                               \
                 free(mem);                                                                    \
                 mc_end(!(op == OP_CLEAR && k.qlen == 0), outcome);                            \
             }                                                                                 \
         }                                                                                     \
         mc.states += (int64_t)set.n;                                                          \
         mc_set_free(&set);                                                                    \
+    }                                                                                         \
+    /* One structured history on a ring of `cap` elements (not searched: driven). */          \
+    static void big_##NAME(size_t cap, int ovr, size_t rot, size_t fill, int extra, int drain) \
+    {                                                                                         \
+        const unsigned itmask = (1u << IT_FF) | (1u << IT_AUXA_DONE) | (1u << IT_SAME_OTHER_DIR); \
+        const size_t total = rot + fill + (size_t)extra + 8;                                  \
+        uint32_t *hist = malloc(total * sizeof *hist); /* model: queue = hist[lo..hi) */      \
+        size_t lo = 0, hi = 0, seq = 0;                                                       \
+        TYPE *mem = mc_exact(cap * sizeof(TYPE));                                             \
+        memset(mem, 0xee, cap * sizeof(TYPE));                                                \
+        NAME c;                                                                               \
+        memset(&c, 0, sizeof c);                                                              \
+        NAME##_init(&c, mem, cap);                                                            \
+        NAME##_override_if_full(&c, ovr != 0);                                                \
+        const char *outcome = "big-stored";                                                   \
+        /* rotate the cursors: rot puts, rot gets */                                          \
+        for (size_t i = 0; i < rot; ++i, ++seq) {                                             \
+            const TYPE v = (TYPE)(BIGVAL(seq));                                               \
+            NAME##_put(&c, v);                                                                \
+            hist[hi++] = v;                                                                   \
+        }                                                                                     \
+        for (size_t i = 0; i < rot && !mc.cur_failed; ++i) {                                  \
+            TYPE v = NAME##_get(&c);                                                          \
+            if ((uint32_t)v != hist[lo])                                                      \
+                mc_fail("C19/get-oldest", "rotation get %zu returned %lx, oldest is %lx", i, (unsigned long)v, (unsigned long)hist[lo]); \
+            lo++;                                                                             \
+        }                                                                                     \
+        mc_trans((int64_t)(2 * rot));                                                         \
+        /* fill to the boundary, then overfill */                                             \
+        for (size_t i = 0; i < fill + (size_t)extra; ++i, ++seq) {                            \
+            const TYPE v = (TYPE)(BIGVAL(seq));                                               \
+            NAME##_put(&c, v);                                                                \
+            if (hi - lo == cap) {                                                             \
+                if (ovr) {                                                                    \
+                    lo++;                                                                     \
+                    hist[hi++] = v;                                                           \
+                    outcome = "big-evicts";                                                   \
+                } else {                                                                      \
+                    outcome = "big-dropped";                                                  \
+                }                                                                             \
+            } else {                                                                          \
+                hist[hi++] = v;                                                               \
+            }                                                                                 \
+        }                                                                                     \
+        mc_trans((int64_t)(fill + (size_t)extra));                                            \
+        if (c.data != mem)                                                                    \
+            mc_fail("C19/geometry-unchanged", "storage pointer changed");                     \
+        mc_log("after fill: queue holds %zu", hi - lo);                                       \
+        if (!mc.cur_failed)                                                                   \
+            check_observers_##NAME(&c, hist + lo, hi - lo, cap, itmask);                      \
+        /* drain: 0 none, 1 one element, 2 all but one, 3 everything */                       \
+        size_t ng = drain == 0 ? 0 : drain == 1 ? 1 : drain == 2 ? (hi - lo ? hi - lo - 1 : 0) : hi - lo; \
+        if (ng > hi - lo)                                                                     \
+            ng = hi - lo;                                                                     \
+        for (size_t i = 0; i < ng && !mc.cur_failed; ++i) {                                   \
+            TYPE v = NAME##_get(&c);                                                          \
+            if ((uint32_t)v != hist[lo])                                                      \
+                mc_fail("C19/get-oldest", "get %zu returned %lx, oldest is %lx", i, (unsigned long)v, (unsigned long)hist[lo]); \
+            lo++;                                                                             \
+        }                                                                                     \
+        mc_trans((int64_t)ng);                                                                \
+        mc_log("after drain: queue holds %zu", hi - lo);                                      \
+        if (!mc.cur_failed && ng > 0)                                                         \
+            check_observers_##NAME(&c, hist + lo, hi - lo, cap, itmask);                      \
+        /* two more puts (wrap the write cursor after a drain) */                             \
+        for (int i = 0; i < 2; ++i, ++seq) {                                                  \
+            const TYPE v = (TYPE)(BIGVAL(seq));                                               \
+            NAME##_put(&c, v);                                                                \
+            if (hi - lo == cap) {                                                             \
+                if (ovr) {                                                                    \
+                    lo++;                                                                     \
+                    hist[hi++] = v;                                                           \
+                }                                                                             \
+            } else {                                                                          \
+                hist[hi++] = v;                                                               \
+            }                                                                                 \
+        }                                                                                     \
+        mc_trans(2);                                                                          \
+        mc_log("after two more puts: queue holds %zu", hi - lo);                              \
+        if (!mc.cur_failed)                                                                   \
+            check_observers_##NAME(&c, hist + lo, hi - lo, cap, itmask);                      \
+        if (drain == 3) {                                                                     \
+            /* to empty, and one get beyond */                                                \
+            while (lo < hi && !mc.cur_failed) {                                               \
+                TYPE v = NAME##_get(&c);                                                      \
+                if ((uint32_t)v != hist[lo])                                                  \
+                    mc_fail("C19/get-oldest", "final get returned %lx, oldest is %lx", (unsigned long)v, (unsigned long)hist[lo]); \
+                lo++;                                                                         \
+            }                                                                                 \
+            if (!mc.cur_failed) {                                                             \
+                TYPE v = NAME##_get(&c);                                                      \
+                if (v != 0)                                                                   \
+                    mc_fail("C19/get-empty-zero", "get on empty returned %lx", (unsigned long)v); \
+                check_observers_##NAME(&c, hist + lo, 0, cap, itmask);                        \
+            }                                                                                 \
+        }                                                                                     \
+        free(mem);                                                                            \
+        free(hist);                                                                           \
+        mc_end(true, outcome);                                                                \
     }
 
-EXPLORER(octet_ring, uint8_t, 0x11, 0xee)
-EXPLORER(ring16, uint16_t, 0x1234, 0xabcd)
-EXPLORER(ring32, uint32_t, 0x12345678u, 0xabcdef01u)
+#define BIGVAL8(s) (((s) % 251u) + 1u)
+#define BIGVAL16(s) (((s) % 65521u) + 1u)
+#define BIGVAL32(s) ((uint32_t)(s) * 2654435761u + 1u)
+
+EXPLORER(octet_ring, uint8_t, 0x11, 0xee, BIGVAL8)
+EXPLORER(ring16, uint16_t, 0x1234, 0xabcd, BIGVAL16)
+EXPLORER(ring32, uint32_t, 0x12345678u, 0xabcdef01u, BIGVAL32)
+
+static int
+push_unique(size_t *v, int n, int max, size_t x)
+{
+    for (int i = 0; i < n; ++i)
+        if (v[i] == x)
+            return n;
+    if (n < max)
+        v[n++] = x;
+    return n;
+}
+
+/* structured histories on capacities next to a type boundary */
+static void
+big_family(void)
+{
+    static const size_t bq[] = { 256, 65536 };
+    static const size_t bt[] = { 256, 32768, 65536, 131072 };
+    static const char *TN[3] = { "octet_ring", "ring16", "ring32" };
+    static const char *DN[4] = { "none", "one", "all-but-one", "all" };
+    const size_t *bds = mc_thorough() ? bt : bq;
+    const int nb = mc_thorough() ? 4 : 2;
+    aux_rings(3, 7);
+    for (int bi = 0; bi < nb; ++bi)
+        for (int dc = -1; dc <= 1; ++dc) {
+            const size_t cap = bds[bi] + (size_t)dc;
+            size_t rots[4], fills[24];
+            int nrot = 0, nfill = 0;
+            rots[nrot++] = 0;
+            nrot = push_unique(rots, nrot, 4, 1);
+            nrot = push_unique(rots, nrot, 4, cap - 1);
+            const size_t fc[] = { 0, 1, 2, 255, 256, 257, 32767, 32768, 32769, 65535, 65536, 65537, cap - 1, cap };
+            for (size_t i = 0; i < sizeof fc / sizeof fc[0]; ++i)
+                if (fc[i] <= cap)
+                    nfill = push_unique(fills, nfill, 24, fc[i]);
+            for (int ty = 0; ty < 3; ++ty)
+                for (int ovr = 0; ovr < 2; ++ovr)
+                    for (int ri = 0; ri < nrot; ++ri)
+                        for (int fi = 0; fi < nfill; ++fi)
+                            for (int extra = 0; extra <= (fills[fi] == cap ? 2 : 0); ++extra)
+                                for (int drain = 0; drain < 4; ++drain) {
+                                    if (!mc_case("big %s cap=%zu override=%d rotate=%zu fill=%zu extra-puts=%d drain=%s",
+                                                 TN[ty], cap, ovr, rots[ri], fills[fi], extra, DN[drain]))
+                                        continue;
+                                    if (ty == 0)
+                                        big_octet_ring(cap, ovr, rots[ri], fills[fi], extra, drain);
+                                    else if (ty == 1)
+                                        big_ring16(cap, ovr, rots[ri], fills[fi], extra, drain);
+                                    else
+                                        big_ring32(cap, ovr, rots[ri], fills[fi], extra, drain);
+                                }
+        }
+}
 
 int
 main(int argc, char **argv)
@@ -264,18 +609,26 @@ main(int argc, char **argv)
     for (size_t cap = 1; cap <= maxcap; ++cap) {
         /* one partition per (capacity, element type): independent searches */
         if (mc_partition((int)(3 * (maxcap - cap) + 0), (int64_t)(3 * cap + 0)))
-            explore_octet_ring(cap);
+            explore_octet_ring(cap, maxcap);
         if (mc_partition((int)(3 * (maxcap - cap) + 1), (int64_t)(3 * cap + 1)))
-            explore_ring16(cap);
+            explore_ring16(cap, maxcap);
         if (mc_partition((int)(3 * (maxcap - cap) + 2), (int64_t)(3 * cap + 2)))
-            explore_ring32(cap);
+            explore_ring32(cap, maxcap);
     }
+    /* the structured large-capacity histories are an odometer: sharded case by case */
     mc_partition(-1, 99);
+    big_family();
     /* vacuity is guarded by the orchestrator's required outcome classes
-     * (put-evicts, put-dropped, get-empty, get-oldest, clear): the searches are
-     * spread over the shards, so no single process sees all of them */
-    char bound[160];
-    snprintf(bound, sizeof bound, "capacities 1..%zu x element types u8/u16/u32 x two element values, all operations, observers and both iterators in every state, to fixpoint", maxcap);
+     * (put-evicts, put-dropped, get-empty, get-oldest, clear, ...): the
+     * searches are spread over the shards, so no single process sees all */
+    char bound[700];
+    snprintf(bound, sizeof bound,
+             "capacities 1..%zu x element types u8/u16/u32 x two element values, all operations + re-initialisation of the used object "
+             "to capacities {cap-1,cap,cap+1,1,%zu} from every state of the home capacity, roots init / init+override(off) / init+override(on) / "
+             "init of a 0xff object (cap<=3), observers and both iterators on 7 iterator-object histories in every state, to fixpoint; "
+             "capacities 2^{%s}-1..+1 x u8/u16/u32 x override off/on x rotation {0,1,cap-1} x fill levels {0,1,2,2^8-1..2^8+1,2^15-1..2^15+1,2^16-1..2^16+1,cap-1,cap} "
+             "x overfill 0..2 x drain {none,one,all-but-one,all}: structured histories with observers and both iterators (3 iterator-object histories) after fill, drain and wrap",
+             maxcap, maxcap, mc_thorough() ? "8,15,16,17" : "8,16");
     mc_finish(true, bound);
     return 0;
 }
